@@ -11,8 +11,8 @@ VALS = {"_Bool": ["0", "1"], "char": ["0", "1", "-1", "127", "(-127-1)"], "signe
         "short": ["0", "1", "-1", "32767", "(-32767-1)"], "unsigned short": ["0", "1", "65535", "32768", "9"], "int": ["0", "1", "-1", "2147483647", "(-2147483647-1)"],
         "unsigned": ["0u", "1u", "4294967295u", "2147483648u", "31u"], "long": ["0l", "1l", "-1l", "9223372036854775807l", "(-9223372036854775807l-1)"],
         "unsigned long": ["0ul", "1ul", "18446744073709551615ul", "9223372036854775808ul", "63ul"], "long long": ["0ll", "3ll", "-2ll", "9223372036854775807ll", "(-9223372036854775807ll-1)"],
-        "unsigned long long": ["0ull", "2ull", "18446744073709551615ull", "4294967296ull", "64ull"], "float": ["0.0f", "1.5f", "-2.25f", "3.4028234e38f", "16777217.0f"],
-        "double": ["0.0", "0.1", "-1.0", "1e308", "9007199254740993.0"], "long double": ["0.0L", "1.0L", "-0.5L", "1e4000L", "18446744073709551615.0L"]}
+        "unsigned long long": ["0ull", "2ull", "18446744073709551615ull", "4294967296ull", "64ull"], "float": ["0.0f", "1.5f", "-2.25f", "3.4028234e38f", "16777217.0f", "1.5e19f"],
+        "double": ["0.0", "0.1", "-1.0", "1e308", "9007199254740993.0", "1e19", "3e9"], "long double": ["0.0L", "1.0L", "-0.5L", "1e4000L", "18446744073709551615.0L", "9223372036854775808.0L"]}
 BINOPS = ["+", "-", "*", "/", "%", "<<", ">>", "<", ">", "<=", ">=", "==", "!=", "&", "^", "|", "&&", "||", "?:"]
 INT_ONLY = {"%", "<<", ">>", "&", "^", "|"}
 
